@@ -40,8 +40,16 @@ ASSUMPTIONS = [
 ]
 
 
+TINY = {"Weibull": "gamma", "LogNormal": "mu", "Normal": "mu", "VonMises": "mu", "ScipyWeibullMin": "loc",
+        "ScipyGamma": "loc"}
+
+
 def _mk(h, fam, S):
     fixed = declare_params(h, fam, "f_", names=S)
+    if h.cfg.get("tiny"):
+        # a fixed location-like parameter of small magnitude (1e-5): "still that value to 1e-12 relative" is then a
+        # statement about absolute round-off of 1e-17 - decided by the concrete run on the real libraries
+        fixed[TINY[h.cfg["family"]]] = 1e-5
     start = declare_params(h, fam, "s_", names=[p for p in fam.params if p not in S])
     for p in S:
         lo, hi = fam.ranges[p]
@@ -101,7 +109,7 @@ def h_fit_mle(h):
             d.fit(data, h.cfg.get("method", "mle"))
     h.reach()
     for p in S:
-        h.close(d.parameters[p], fixed[p], "fixed-after-fit", rtol=1e-12)
+        h.close(d.parameters[p], fixed[p], "fixed-after-fit", rtol=1e-12, atol=0.0)
     if fam.cls == "LogNormalNormFitDistribution":
         return
     h.check(len(log) == 1, "scipy-fit-called-once")
@@ -157,6 +165,8 @@ def obligations(tier):
                 yield ("fit_mle", h_fit_mle, {"family": fname, "fixed": "+".join(S), "n": n}, {})
                 if tier == "thorough":
                     yield ("fit_mle", h_fit_mle, {"family": fname, "fixed": "+".join(S), "n": n, "method": "MLE"}, {})
+    for fname, pname in TINY.items():
+        yield ("fit_mle", h_fit_mle, {"family": fname, "fixed": pname, "n": n, "tiny": True}, {})
     nl = 5 if tier == "quick" else 7
     for S in subsets(FAMILIES["ExpWeibull"].params):
         if not S or len(S) == 3:
